@@ -297,6 +297,26 @@ def describe_path(fn, path, limit=14):
     return out
 
 
+def _switch_choices(fn, t, succs, v):
+    """(edge index, successor) pairs a switch can take when its condition folds to v (None = any)"""
+    cases = t.get('cases', [])
+    out = []
+    for i, s in enumerate(succs):
+        if s is None:
+            continue
+        lab = cases[i] if i < len(cases) else None
+        if v is not None and isinstance(lab, dict) and lab.get('k') == 'case':
+            lv = ('enum', lab['name']) if 'name' in lab else lab.get('v')
+            if v != lv and not (isinstance(v, tuple) and 'name' not in lab):
+                continue
+        elif v is not None and (lab == 'nomatch' or (isinstance(lab, dict) and lab.get('k') == 'default')):
+            explicit = [c for c in cases if isinstance(c, dict) and c.get('k') == 'case']
+            if any((('enum', c['name']) if 'name' in c else c.get('v')) == v for c in explicit):
+                continue
+        out.append((i, s))
+    return out
+
+
 def reachable_blocks(fn, evalcond):
     """blocks reachable from the entry when branch conditions are folded by evalcond (stateless)"""
     seen = {fn.entry}
@@ -315,6 +335,8 @@ def reachable_blocks(fn, evalcond):
                 if isinstance(v, bool) and v != (i == 0):
                     continue
                 nxt.append(s)
+        elif t and 'cond' in t and t['k'] == 'switch':
+            nxt = [s for i, s in _switch_choices(fn, t, succs, evalcond(fn, t['cond'], None))]
         else:
             nxt = [s for s in succs if s is not None]
         for s in nxt:
@@ -342,6 +364,8 @@ def reach_with_paths(fn, evalcond):
                 if isinstance(v, bool) and v != (i == 0):
                     continue
                 nxt.append((i, s))
+        elif t and 'cond' in t and t['k'] == 'switch':
+            nxt = _switch_choices(fn, t, succs, evalcond(fn, t['cond'], None))
         else:
             nxt = [(i, s) for i, s in enumerate(succs) if s is not None]
         for i, s in nxt:
